@@ -322,8 +322,12 @@ class MolQueryReader(object):
         except Exception:
             msg = 'Atom Label '+tree[3][1]+' not found'
             raise RINGReaderError(msg)
-        self.ReadBondTypeBondedAtom(idx, idx_connected,
-                                    bondtype, molquery)
+        try:
+            self.ReadBondTypeBondedAtom(idx, idx_connected,
+                                        bondtype, molquery)
+        except RuntimeError:
+            raise RINGReaderError('Cannot bond atom ' + tree[1][1] + ' to '
+                                  + tree[3][1])
 
         if len(tree) > 4:
             assert tree[4][0].name == 'AtomConstraintChain'
@@ -345,7 +349,11 @@ class MolQueryReader(object):
         except Exception:
             msg = 'Atom Label '+tree[2][1]+' not found'
             raise RINGReaderError(msg)
-        self.ReadBondTypeBondedAtom(idx1, idx2, bondtype, molquery)
+        try:
+            self.ReadBondTypeBondedAtom(idx1, idx2, bondtype, molquery)
+        except RuntimeError:
+            raise RINGReaderError('Cannot bond atom ' + tree[0][1] + ' to '
+                                  + tree[2][1])
 
     def ReadStereoDoubleBond(self, tree, molquery):
         i = 0
